@@ -1441,3 +1441,144 @@ pub fn run_c16(rep: &mut Report, driver: &str, workers: usize, thorough: bool, s
     }
     rep.streams.push(sr);
 }
+
+// ---------------------------------------------------------------- C10: names written in rule text
+
+/// identifier spellings next to every keyword and every literal syntax (current or plausible): the words whose meaning a
+/// lexer change would silently alter
+pub fn identifier_words() -> Vec<String> {
+    let mut w: Vec<String> = vec![];
+    for k in ["and", "or", "if", "then", "else", "is_some", "is_none", "none", "some", "int", "float", "dec", "contains", "in", "date_time", "datetime", "duration", "to_upper", "to_lower", "uppercase", "lowercase", "trim", "round", "floor", "fract", "year", "month", "week", "day", "hour", "minute", "second", "true", "false", "starts", "ends", "key", "val", "facts"] {
+        for suffix in ["x", "_", "1", "X", "_1", "s"] {
+            w.push(format!("{}{}", k, suffix));
+        }
+        w.push(k[..k.len() - 1].to_string());
+        w.push(k.to_uppercase());
+        let mut cs = k.chars();
+        w.push(format!("{}{}", cs.next().unwrap().to_uppercase(), cs.as_str()));
+        w.push(format!("x{}", k));
+        w.push(format!("_{}", k));
+    }
+    for s in ["i1_0", "d2_5", "f1_2", "i1_000", "i1__0", "i1_", "i2_", "f1_5", "d30_1", "d1_2", "i18_64", "f1_score", "d1e3", "i1e3", "finf", "fNaN", "dinf", "i0x10", "i1L", "f1f64", "t1h", "t5m30s", "t1w2d3h4m5s", "t90s", "p1y2m", "b101", "o777", "x1f", "u128", "e10",
+              "i", "f", "d", "t", "i_", "f_1", "d1_", "if1", "f1f", "d1d1", "inty", "i5x", "f1e5x", "d5x", "a_b", "_a", "a__", "A1", "x", "X", "é", "aé", "_", "__", "_1", "a1", "I1", "F1", "D1", "I", "F", "D", "i1a", "x0", "x00", "k01", "r2d2", "v1_2_3", "id", "Id", "ID"] {
+        w.push(s.to_string());
+    }
+    w.sort();
+    w.dedup();
+    w.retain(|x| x != "outer" && !x.is_empty());
+    w
+}
+
+/// "An identifier evaluates to the input's top-level field of exactly that name … `:name` to the symbol registered under that
+/// name … a chain of steps to exactly the nested element addressed" for names *as written in rule text*: every word the
+/// model's lexer reads as an identifier, in every position a name can take, resolves (real parser + real evaluator) to the
+/// datum stored under exactly that word
+pub fn run_c10_names(rep: &mut Report, driver: &str, workers: usize) {
+    let words = identifier_words();
+    let probe = run_texts(words.iter().map(|w| TextCase { text: w.clone(), tag: "names" }).collect(), false, driver, workers);
+    let mut sr = StreamReport::new("names-in-text", "every identifier spelling next to a keyword or a literal syntax (keyword + one character, other letter cases, letter-digit-underscore words such as i1_0 / d2_5 / t90s / f1e5x) that the model's lexer reads as an identifier, written as a reference, after `facts.`, as a nested field step, as a symbol, as a function name, inside a list / map / comparison: parsed by Expr::parse and by Rule::parse and evaluated in a ruleset, it yields the datum stored under exactly that name", true);
+    let mut all: Vec<(String, Value, Value, String, String, &'static str)> = vec![];
+    for (w, m) in words.iter().zip(probe.model.iter()) {
+        let is_ident = !m.unanswered && m.reply == format!("(ok {})", enc_expr(&reff(w)));
+        sr.hist("model_lexer", if is_ident { "identifier" } else { "not-an-identifier" });
+        if !is_ident {
+            continue;
+        }
+        let top = Value::String(format!("top-{}", w));
+        let inner = Value::String(format!("inner-{}", w));
+        let sym = Value::String(format!("sym-{}", w));
+        let facts = Value::Map(BTreeMap::from([(w.clone(), top.clone()), ("outer".to_string(), Value::Map(BTreeMap::from([(w.clone(), Value::Vec(vec![inner.clone()]))])))]));
+        let ok = |v: &Value| enc_result(&Ok(v.clone()));
+        let forms: Vec<(String, String, &'static str)> = vec![
+            (w.clone(), ok(&top), "W"),
+            (format!("facts.{}", w), ok(&top), "facts.W"),
+            (format!("outer.{}", w), ok(&Value::Vec(vec![inner.clone()])), "outer.W"),
+            (format!("outer.{}.0", w), ok(&inner), "outer.W.0"),
+            (format!("facts.outer.{}.0", w), ok(&inner), "facts.outer.W.0"),
+            (format!(":{}", w), ok(&sym), ":W"),
+            (format!("[{}].0", w), ok(&top), "[W].0"),
+            (format!("{{k: {}}}.k", w), ok(&top), "{k: W}.k"),
+            (format!("{{{}: i1}}.{}", w, w), ok(&Value::Int(1)), "{W: i1}.W"),
+            (format!("{} == {}", w, w), ok(&Value::Bool(true)), "W == W"),
+            (format!("if true then {} else i0", w), ok(&top), "if true then W else i0"),
+            (format!("{} contains \"top-\"", w), ok(&Value::Bool(true)), "W contains \"top-\""),
+            (format!("{}(i7)", w), ok(&Value::Vec(vec![Value::Int(7), Value::Int(0)])), "W(i7)"),
+            (format!("{}({})", w, w), ok(&Value::Vec(vec![top.clone(), Value::Int(0)])), "W(W)"),
+        ];
+        for (text, want, t) in forms {
+            all.push((w.clone(), facts.clone(), sym.clone(), text, want, t));
+        }
+    }
+    // only the texts the model's parser derives are judged (`outer.d.0` is `outer` `.` and the decimal literal `d.0`)
+    let accepted = run_texts(all.iter().map(|x| TextCase { text: x.3.clone(), tag: "names" }).collect(), false, driver, workers);
+    for ((w, facts, sym, text, want, tmpl), m) in all.iter().zip(accepted.model.iter()) {
+        let (text, want) = (text.clone(), want.clone());
+        if m.unanswered || !m.reply.starts_with("(ok") {
+            sr.hist("model_parser", "form-not-derivable");
+            continue;
+        }
+        sr.hist("model_parser", "derivable");
+        {
+            sr.count(&text, true);
+            let got = catch_unwind(AssertUnwindSafe(|| {
+                let mut outs = vec![];
+                for via_rule in [false, true] {
+                    let rule = if via_rule {
+                        match Rule::parse(&format!("// n\n{}", text)) {
+                            Ok(r) => r,
+                            Err(_) => {
+                                outs.push("reject".to_string());
+                                continue;
+                            }
+                        }
+                    } else {
+                        match Expr::parse(&text) {
+                            Ok(e) => Rule::new("n", BTreeMap::new(), e),
+                            Err(_) => {
+                                outs.push("reject".to_string());
+                                continue;
+                            }
+                        }
+                    };
+                    let shared = std::sync::Arc::new(Shared::default());
+                    let b = reval::prelude::ruleset().with_rule(rule).map(|b| b.with_symbol(w, sym.clone()));
+                    let b = match b {
+                        Ok(b) => b,
+                        Err(e) => {
+                            outs.push(format!("BUILD {}", enc_err(&e)));
+                            continue;
+                        }
+                    };
+                    let b = match b.with_function(HFn { name: leak(w), spec: FnSpec::new(w, false, FnKind::Wrap), shared: shared.clone() }) {
+                        Ok(b) => b,
+                        Err(e) => {
+                            outs.push(format!("BUILD {}", enc_err(&e)));
+                            continue;
+                        }
+                    };
+                    outs.push(match block_on(b.build().evaluate_value(&facts)) {
+                        Ok(os) if os.len() == 1 => enc_result(&os[0].value),
+                        Ok(os) => format!("({} outcomes)", os.len()),
+                        Err(e) => format!("EVALERR {}", enc_err(&e)),
+                    });
+                }
+                outs
+            }))
+            .unwrap_or_else(|_| vec!["PANIC".to_string()]);
+            let bad = got.iter().any(|g| g != &want) || got.len() != 2;
+            if bad {
+                rep.add_finding(Finding {
+                    kind: "impl-violates-property".into(),
+                    stream: "names-in-text".into(),
+                    case: format!("names\t{}", hexs(&text)),
+                    human: format!("{:?} over facts {} with symbol and function {:?} registered", text, facts, w),
+                    impl_out: format!("Expr::parse: {} | Rule::parse: {}", got.first().cloned().unwrap_or_default(), got.get(1).cloned().unwrap_or_default()),
+                    model_out: want.clone(),
+                    predicate: format!("the word {:?} is an identifier (the model's lexer, tied to the real one by C07 / C08): written in rule text it addresses the field / symbol / function of exactly that name", w),
+                    signature: format!("C10 names-in-text {}", tmpl),
+                });
+            }
+        }
+    }
+    rep.streams.push(sr);
+}
